@@ -9,6 +9,7 @@ import Pyunicorn.Lemmas.SurrogatesObject
 import Pyunicorn.Lemmas.SurrogatesTies
 import Pyunicorn.Lemmas.SurrogatesMethod
 import Pyunicorn.Lemmas.SurrogatesCoupling
+import Pyunicorn.Lemmas.SurrogatesCouplingStep
 import Pyunicorn.Generated.StructC15
 /-!
 # C15 — Surrogates preserve exactly what each method promises
@@ -57,6 +58,12 @@ Clauses of the statement and where they are:
   length (`last_bin_of_odd_length_is_not_nyquist`, `forcing_last_bin_real_changes_amplitude`);
   `normalize_original_data` (`normalize_keeps_shape`, `normalize_zero_mean`, `normalize_unit_variance`,
   `normalize_constant_series`, `normalize_strictly_increasing`).
+* round 5: the Fourier surrogates of the pure-Python coupling class at full strength —
+  `coupling_step_on_blocks` (the slices of the source select DC / positive / Nyquist / negative
+  frequencies, every array), `coupling_step_keeps_hermitian_and_moduli`,
+  `coupling_fft_of_real_series_is_hermitian`, `coupling_hermitian_list_is_hermitian_function`,
+  `coupling_fourier_surrogates_keep_amplitudes` (every series, every call history, **every** bin),
+  `coupling_lenPhase_is_half`, `coupling_wrong_phase_count_raises`.
 -/
 namespace Pyunicorn.Surrogates
 
@@ -790,6 +797,87 @@ repaired `numpy.flipud` (node axis) version produced, amplitudes not kept -/
 theorem real_ifft_spectrum_general {n : ℕ} [NeZero n] (W : ZMod n → ℂ) (k : ZMod n) :
     ZMod.dft (fun t => ((realIfft W t : ℝ) : ℂ)) k = (W k + (starRingEnd ℂ) (W (-k))) / 2 :=
   dft_realIfft_general W k
+
+/-- both branches of the source's `lenPhase` (`(ntime - 2) // 2` for even, `(ntime - 1) // 2` for odd
+lengths) are `(ntime - 1) div 2`: the number of strictly positive, non-Nyquist frequencies -/
+theorem coupling_lenPhase_is_half (n : ℕ) (hn : 1 ≤ n) :
+    cnsLen (n : Int) = (((n - 1) / 2 : ℕ) : Int) :=
+  cnsLen_natCast n hn
+
+example : cnsLen 6 = 2 ∧ cnsLen 7 = 3 ∧ cnsLen 1 = 0 ∧ cnsLen 2 = 0 := by decide
+
+/-- one call, for **every** array of the shape `DC :: positive ++ Nyquist? ++ negative` (any content,
+any number type): the slice bounds of the source (`1:lenPhase+1`, `lenPhase+2:ntime` resp.
+`lenPhase+1:ntime`, both parity tests — `Generated/ArithC15.lean`) select exactly these blocks; the
+call returns DC and Nyquist untouched, the positive frequencies multiplied by the unit phases and
+the negative frequencies overwritten by the reversed conjugates of the *new* positive ones -/
+theorem coupling_step_on_blocks {α : Type} [Add α] [Sub α] [Mul α] [Neg α] (T : Trig α)
+    (d : α × α) (P Mid Q : List (α × α)) (φs : List α)
+    (hQ : Q.length = P.length) (hM : Mid.length ≤ 1) (hφ : φs.length = P.length) :
+    cnsStep T (d :: (P ++ Mid ++ Q)) φs
+      = some (d :: (rotRow T P φs ++ Mid ++ ((rotRow T P φs).map conjP).reverse)) :=
+  cnsStep_decomp T d P Mid Q φs hQ hM hφ
+
+/-- every non-empty array has that shape, so `coupling_step_on_blocks` is about every input -/
+theorem coupling_blocks_exist {β : Type} (T : List β) :
+    ∃ P Mid Q, T = P ++ Mid ++ Q ∧ P.length = T.length / 2 ∧ Q.length = P.length ∧
+      Mid.length ≤ 1 :=
+  cns_blocks_exist T
+
+/-- a number of phases other than the source's `lenPhase` is a shape error (`none`), for every
+non-empty array — nothing below is true thanks to a silently truncated `zipWith` -/
+theorem coupling_wrong_phase_count_raises {α : Type} [Add α] [Sub α] [Mul α] [Neg α] (T : Trig α)
+    (W : List (α × α)) (hW : W ≠ []) (φs : List α)
+    (h : (φs.length : Int) ≠ cnsLen (W.length : Int)) : cnsStep T W φs = none :=
+  cnsStep_wrong_phase_count T W hW φs h
+
+/-- `numpy.fft.fft` of a real series (the array the class memoises) is Hermitian: real DC bin, the
+other bins read backwards are their conjugates -/
+theorem coupling_fft_of_real_series_is_hermitian {n : ℕ} [NeZero n] (x : ZMod n → ℝ) :
+    HermL (fullSpectrum x) :=
+  fullSpectrum_hermL x
+
+/-- the invariant of the memoised array: one call on a Hermitian array with the source's number of
+phases succeeds, leaves a Hermitian array, and keeps the modulus at **every** bin -/
+theorem coupling_step_keeps_hermitian_and_moduli (W : List (ℝ × ℝ)) (hW : HermL W) (φs : List ℝ)
+    (hφ : (φs.length : Int) = cnsLen (W.length : Int)) :
+    ∃ out, cnsStep realTrig W φs = some out ∧ HermL out ∧
+      out.map Pyunicorn.Surrogates.normSq = W.map Pyunicorn.Surrogates.normSq :=
+  cnsStep_hermitian W hW φs hφ
+
+/-- the list predicate `HermL` is the symmetry `W(-k) = conj W(k)` on `ZMod n` that
+`hermitian_spectrum_survives_real_ifft` needs -/
+theorem coupling_hermitian_list_is_hermitian_function {n : ℕ} [NeZero n] (W : List (ℝ × ℝ))
+    (hW : HermL W) (hl : W.length = n) (k : ZMod n) :
+    fullFn W (-k) = (starRingEnd ℂ) (fullFn W k) :=
+  fullFn_hermitian W hW hl k
+
+/-- **`CouplingAnalysisPurePython.correlatedNoiseSurrogates` keeps the amplitude spectrum**: for
+every real series of every length `n ≥ 1`, every history of calls on one object (the phases are
+multiplied into the memoised FFT in place, so call `k` starts from what call `k-1` left), with the
+number of phases the source draws: every call succeeds and `real(ifft(·))` of the array it hands to
+`ifft` has the amplitude of the data at **every** bin `k` (DC and Nyquist included).  `fullSpectrum`
+/ `realIfft` are the DFT pair `numpy.fft.fft` / `real(numpy.fft.ifft)` compute up to rounding (the
+remaining trusted fact, compared with the explicit sums on every run). -/
+theorem coupling_fourier_surrogates_keep_amplitudes {n : ℕ} [NeZero n] (x : ZMod n → ℝ)
+    (phases : List (List ℝ)) (h : ∀ φs ∈ phases, (φs.length : Int) = cnsLen (n : Int)) :
+    ∃ outs, cnsCalls realTrig (fullSpectrum x) phases = some outs ∧ outs.length = phases.length ∧
+      ∀ out ∈ outs, ∀ k : ZMod n,
+        ‖ZMod.dft (fun t => ((realIfft (fullFn out) t : ℝ) : ℂ)) k‖
+          = ‖ZMod.dft (fun t => (x t : ℂ)) k‖ :=
+  cnsCalls_surrogate_amplitudes x phases h
+
+/-- non-vacuity: length 5 (two phases per call), three calls on one object -/
+example (x : ZMod 5 → ℝ) : ∃ outs, cnsCalls realTrig (fullSpectrum x) [[1, 2], [0, 3], [5, 5]]
+    = some outs ∧ outs.length = 3 :=
+  let ⟨outs, h, hl, _⟩ := coupling_fourier_surrogates_keep_amplitudes x [[1, 2], [0, 3], [5, 5]]
+    (by intro φs hφ; simp only [List.mem_cons, List.not_mem_nil, or_false] at hφ
+        rcases hφ with rfl | rfl | rfl <;> decide)
+  ⟨outs, h, hl⟩
+
+/-- non-vacuity of `HermL`: a Hermitian array of even length with a non-real bin -/
+example : HermL [(10, 0), (1, 2), (30, 0), (1, -2)] :=
+  ⟨(10, 0), [(1, 2), (30, 0), (1, -2)], rfl, rfl, by simp [conjP]⟩
 
 /-- one call on the memoised full FFT of a series of length 6 (multiplication by `i`): DC and
 Nyquist untouched, bins 1-2 rotated, bins 4-5 the reversed conjugates -/
